@@ -33,6 +33,7 @@ func runC10(r *Run) {
 	pingFlavour := t.Draw(3) == 2 // CloseRead active, ops: Ping/Write/Writer
 	nOps := 3 + t.Draw(12)
 	terminal := t.Weighted(5, 3, 1) // 0 final round trip, 1 'during', 2 'before'
+	r.DrawYields()
 	r.S.Stick = []int{0, 60}[t.Draw(2)]
 	r.S.MaxSteps = 40000
 	r.S.MaxSim = 10 * time.Minute
